@@ -154,7 +154,13 @@ class RoundTrips(Suite):
         return [dict(kind='generated', items=list(range(690, 940))),
                 dict(kind='generated', items=[{'k': i, 's': 'x' * (i % 7)} for i in range(205)]),
                 dict(kind='generated', items=[[i, str(i)] for i in range(101)]),
-                dict(kind='listnumpy', arrays=[[[i, i + 1], 'int64'] for i in range(25)])]
+                dict(kind='listnumpy', arrays=[[[i, i + 1], 'int64'] for i in range(25)]),
+                # arrays whose dtype spells the byte order out (data read from a binary format): the dtype is part of the value
+                *[dict(kind='numpy', dtype=dt, shape=[3], data=d, slice=False, fortran=False, complex=False)
+                  for dt, d in (('>i4', [1, -2, 300]), ('>f8', [0.5, -1e4, 3.0]), ('>u2', [1, 2, 515]), ('<i4', [1, -2, 300]),
+                                ('>U3', ['a', 'abc', 'é']), ('=i2', [1, 2, 3]))],
+                dict(kind='numpy', dtype='>i4', shape=[2, 2], data=[1, 2, 3, 4], slice=False, fortran=True, complex=False),
+                dict(kind='listnumpy', arrays=[[[1, 2], '>i4'], [[3.5], '>f8'], [[7], '<u2']])]
 
     def gen(self, rng, tier):
         out = []
@@ -528,10 +534,105 @@ class Replaced(Suite):
         return repr(case)
 
 
+LAZY_SRC = '''
+from typing import Generator
+from taskchain import Task, Parameter
+from taskchain.data import GeneratedDataLazy
+
+RUNS = []
+
+class Items(Task):
+    class Meta:
+        data_class = GeneratedDataLazy
+        parameters = [Parameter("n")]
+    def run(self, n) -> Generator:
+        RUNS.append("items")
+        for i in range(n):
+            yield {"i": i, "s": "x" * (i % 3)}
+
+class Total(Task):              # two readers of the lazy value, the first stops early
+    class Meta:
+        input_tasks = [Items]
+    def run(self, items) -> dict:
+        first = next(iter(items()), None)
+        return {"first": first, "all": list(items()), "again": len(list(items()))}
+'''
+
+
+class LazySequences(Suite):
+    """a generated sequence stored by GeneratedDataLazy (the value is a function that opens the stored sequence): every
+    call of the value reads the whole sequence - twice in a row, after a reader that stopped early, through a consumer
+    task, from a later chain and in a new process.  Runtime check only."""
+    name = 'lazy_sequences'
+    model = ''
+
+    def gen(self, rng, tier):
+        return [dict(n=n) for n in (0, 1, 5, 120)]
+
+    def run_impl(self, case):
+        from .c05 import in_child
+        tmp = tempfile.mkdtemp(prefix='tcverif-c06l-')
+        old = os.getcwd()
+        try:
+            os.chdir(tmp)
+            name = 'tcv_dyn_c06l'
+            m = types.ModuleType(name)
+            sys.modules[name] = m
+            exec(compile(LAZY_SRC, name, 'exec'), m.__dict__)
+            for c in (m.Items, m.Total):
+                c.__module__ = name
+
+            def chain():
+                from taskchain import Config
+                return Config(Path('data'), name='cfg', data={'tasks': [m.Items, m.Total], 'n': case['n']}).chain()
+
+            def reads(v):
+                it = iter(v())
+                head = next(it, None)
+                return dict(head=head, full=list(v()), second=list(v()))
+
+            def scenario():
+                ch = chain()
+                computing = reads(ch['items'].value)
+                total = ch['total'].value
+                later = reads(chain()['items'].value)
+                return dict(computing=computing, total=total, later=later, total_later=chain()['total'].value, runs=list(m.RUNS),
+                            child=in_child(lambda: dict(r=reads(chain()['items'].value))))
+            return in_child(scenario)
+        finally:
+            os.chdir(old)
+            sys.modules.pop('tcv_dyn_c06l', None)
+            shutil.rmtree(tmp, ignore_errors=True)
+
+    def oracle(self, case, obs):
+        if 'unexpected_exception' in obs:
+            return f'unexpected exception {obs["unexpected_exception"]}: {obs["text"]}'
+        if 'child_error' in obs:
+            return f'{case}: {obs["child_error"]}'
+        want = [{'i': i, 's': 'x' * (i % 3)} for i in range(case['n'])]
+        r = dict(head=want[0] if want else None, full=want, second=want)
+        for who, got in (('the computing chain', obs['computing']), ('a later chain', obs['later']), ('a new process', obs['child'].get('r'))):
+            if got != r:
+                return (f'{case}: reading the lazy value in {who} gives head={str((got or {}).get("head"))[:60]}, '
+                        f'{len((got or {}).get("full", []))} items, then {len((got or {}).get("second", []))} items; the sequence has {len(want)}')
+        t = dict(first=r['head'], all=want, again=len(want))
+        if obs['total'] != t or obs['total_later'] != t:
+            return f'{case}: the consumer saw {str(obs["total"])[:200]}; the sequence has {len(want)} items'
+        if obs['runs'] != ['items']:
+            return f'{case}: runs {obs["runs"]}'
+        return None
+
+    def nontrivial(self, case, obs):
+        return case['n'] > 0
+
+    def key(self, case):
+        return repr(case)
+
+
 class C06(Prop):
     pid = 'C06'
     level = 'other'
-    suites = [Framing(), RoundTrips(), Replaced()]
+    suites = [Framing(), RoundTrips(), Replaced(), LazySequences()]
     explanation = ('proof of the framing and guard logic taskchain adds around the serializers (json-lines framing, value '
                    'guard, numeric file order, load purity) + translation validation of the serializers themselves: every '
                    'data class, computing chain vs later chain in a fresh process, type-/dtype-/shape-/order-sensitive comparison')
